@@ -1361,6 +1361,18 @@ func (ss *ServerSession) handleRequestInner(sc *ServerConn, req *base.Request) (
 			for _, sm := range ss.setuppedMedias {
 				err = sm.start()
 				if err != nil {
+					// the session is not recording: go back to the previous state,
+					// otherwise it would stay in RECORD state with no timeout.
+					for _, sm2 := range ss.setuppedMedias {
+						sm2.stop()
+					}
+
+					ss.propsMutex.Lock()
+					ss.state = ServerSessionStatePreRecord
+					ss.propsMutex.Unlock()
+
+					ss.destroyWriter()
+
 					return &base.Response{
 						StatusCode: base.StatusBadRequest,
 					}, err
